@@ -3,11 +3,14 @@ package c01
 
 import (
 	"bytes"
+	"context"
 	"encoding/json"
 	"fmt"
 	"math"
 	"math/rand"
 	"os"
+	exec_ "os/exec"
+	"path/filepath"
 	"strings"
 	"sync"
 	"sync/atomic"
@@ -347,6 +350,12 @@ func (r *runner) runGen(space string, o tlc.Opts) {
 				}
 			}
 			for _, e := range embsFor(int64(hash(l.P.SVG()+"|"+l.Q.SVG())), c.Thorough()) {
+				if strings.HasPrefix(e.Name, "jitter") && (l.F["pdeg"] || l.F["qdeg"]) {
+					// a zero-area contour under sub-grid jitter can make the sweep loop forever (known finding
+					// timeout+degenerate~jitter, witnessed once per run in a child process, see hangWitness): such
+					// scenarios are run under the rotation embedding instead, a hang cannot be abandoned in-process
+					e = latgeo.Pyth
+				}
 				s := &Scenario{Kind: "bool", S: hdr.S, Samples: hdr.Samples, P: l.P, Q: l.Q, Emb: e, Exp: exp, F: l.F, Space: space}
 				st := &stamp{time.Now(), s}
 				r.inflight.Store(st, true)
@@ -548,6 +557,50 @@ func ccfg(n, k, num int) string {
 	return fmt.Sprintf("SPECIFICATION Spec\nCONSTANTS N = %d\n K = %d\n Num = %d\n What = \"bool\"\nINVARIANTS SubdivOK\nCHECK_DEADLOCK FALSE\n", n, k, num)
 }
 
+// hangWitness re-executes the recorded witness of the known non-termination (a spike contour next to a triangle
+// under sub-grid jitter: known_findings.d/C01-hang-witness.json) in a CHILD process, which can be killed: if the
+// operations still do not return it is counted as the known finding timeout-<op>+degenerate@tri~jitter; if they
+// return, nothing is reported (the defect is gone). Any other outcome of the child is a machinery failure.
+func hangWitness(c *core.Ctx) {
+	path := filepath.Join(core.VerifDir, "known_findings.d", "C01-hang-witness.json")
+	raw, err := os.ReadFile(path)
+	if err != nil {
+		return // no witness recorded
+	}
+	var rec struct {
+		Scenario json.RawMessage `json:"scenario"`
+	}
+	if json.Unmarshal(raw, &rec) != nil {
+		c.Broken("hang witness unreadable")
+		return
+	}
+	exe, err := os.Executable()
+	if err != nil {
+		c.Broken("hang witness: " + err.Error())
+		return
+	}
+	ctx, cancel := context.WithTimeout(context.Background(), 3*time.Minute)
+	defer cancel()
+	cmd := exec_.CommandContext(ctx, exe, "C01", "--replay", path)
+	cmd.Env = append(os.Environ(), "VERIF_OUT="+os.TempDir())
+	out, _ := cmd.CombinedOutput()
+	var ms []core.Mismatch
+	for _, ln := range strings.Split(string(out), "\n") {
+		if i := strings.Index(ln, "mismatch signature="); i >= 0 {
+			f := strings.SplitN(ln[i+len("mismatch signature="):], " ", 2)
+			if strings.HasPrefix(f[0], "timeout-") {
+				ms = append(ms, core.Mismatch{Signature: f[0], Detail: "child process: " + ln[i:]})
+			}
+		}
+	}
+	c.Count(5, 0, 1)
+	if len(ms) > 0 {
+		var s Scenario
+		json.Unmarshal(rec.Scenario, &s)
+		c.Report(&s, ms)
+	}
+}
+
 func (d Driver) Run(c *core.Ctx) error {
 	c.Rule = "scenario = ordered pair of lattice paths (1-2 contours, 3-5 vertices each, all degenerate placements) printed by spec/BoolOps.tla with the expected three-valued cells of And/Or/Xor/Not/DivideBy, executed under 2-3 affine embeddings; evaluations = real boolean operations executed; non-trivial = distinct pairs whose regions overlap on at least one sample cell"
 	c.Assumptions = []string{"operands are lattice polygons and their affine images; the winding oracle (harness/internal/oracle) evaluates results at sample points that the spec proved to be off every input boundary",
@@ -591,6 +644,10 @@ func (d Driver) Run(c *core.Ctx) error {
 		}
 	}()
 	defer close(stop)
+
+	wdone := make(chan struct{})
+	go func() { hangWitness(c); close(wdone) }() // runs beside the other stages (100 s of time-outs in a child process)
+	defer func() { <-wdone }()
 
 	// 1. model level: the laws of the region algebra on the expected cells (small exhaustive space)
 	c.TLC(tlc.Opts{Module: "BoolOps", Config: cfg(2, 3, 1, "random", c.Pick(60, 250), "bool", true), Seed: c.Seed, Coverage: c.Thorough()}, true)
